@@ -39,6 +39,30 @@ CHECKS = {
         note="Environment model = SimFS (validated against a real tmpfs directory on sequential traces each run); sleeping pollers are blocked until a path they looked at changes; no crash here.",
         design="3/C07",
     ),
+    "C06": dict(
+        engine="seqx",
+        category="model_checking",
+        technique="bounded-exhaustive enumeration of multi-worker call sequences on the real JournalStorage, with all batch splits and all snapshot positions of every resulting log",
+        text="Every sequence of 3 (thorough 4) calls by 2 workers over a 14-operation alphabet that includes the rejected calls, and every sequence with one foreign append landing between a call's append and its read, is executed on real JournalStorage objects sharing one list-backed backend. After every call all workers must equal a fresh replay; every one of the 2^(n-1) batch splits and every (snapshot position, worker) restore + tail must give the same state; a rejected call raises only at its issuer and changes nothing; log_number_read equals the records consumed.",
+        note="Backend is a Python list of JSON strings with cut points (real read path, real apply_logs); file/redis specifics are covered by C07/C01.",
+        design="3/C06",
+    ),
+    "C11": dict(
+        engine="seqx-lattice",
+        category="exploration",
+        technique="bounded-exhaustive enumeration of a lattice of distributions with 'ordinary magnitudes' (<=4-digit mantissas, exponents in [-6,6]) x contained values x all 8 transform flag combinations, exact round-trip oracles",
+        text="The full product of a lattice of Float/Int/Categorical (and deprecated) distributions, their contained grid values and the corner/tie/ulp-neighbour points of the transformed box is checked for: JSON round trip equality and idempotence, internal/external representation round trip, untransform(transform(v)) == v, box points mapping into the domain, compatibility/containment answers unchanged by a round trip. Nothing is claimed off the lattice.",
+        note="Tolerances (log floats: max(4, 2+ceil|ln v|) ulp; plain floats exact except the documented 1-ulp clip at high) are stated in vf/c11.py. The box clause is not evaluated for log-scaled distributions with transform_log=False (documented precondition).",
+        design="3/C11",
+    ),
+    "C12": dict(
+        engine="seqx",
+        category="model_checking",
+        technique="bounded-exhaustive enumeration of trial histories (kinds x orders x finishing permutations) on every backend, brute-force optimum oracle",
+        text="All ordered tuples of n trial kinds (COMPLETE x {-inf,0,1,inf} x constraint, PRUNED with the best possible value, FAIL, RUNNING), both directions, created as templates and as RUNNING trials finished in every permutation, on in-memory, journal file, gRPC proxy, raw SQLite RDB, cached RDB and proxy-over-cached; multi-objective: all value vectors over {-inf,0,1,inf}^d and all direction vectors. best_trial/best_value/best_trials/storage.get_best_trial are compared with a brute-force scan of study.trials.",
+        note="n=3 on fast backends, 2 on SQLite-backed ones (quick); ties accept any arg-best member; mixed constrained/unconstrained histories are out (statement leaves them open).",
+        design="3/C12",
+    ),
     "C15": dict(
         engine="seqx-lattice",
         category="exploration",
@@ -60,11 +84,11 @@ CHECKS = {
 ENGINES = [
     dict(name="procx", path="vf/simfs.py", serves_properties=["C05", "C07"],
          kind_free_text="processes as baton-scheduled threads over a simulated file system / virtual clock; every syscall a scheduling or crash point; state caching on (file image, per-process syscall-history digests)"),
-    dict(name="seqx-lattice", path="vf/c15.py", serves_properties=["C15", "C18"],
+    dict(name="seqx-lattice", path="vf/c15.py", serves_properties=["C11", "C15", "C18"],
          kind_free_text="bounded-exhaustive enumeration of finite argument lattices with exact or reference oracles"),
     dict(name="thx", path="vf/thx.py", serves_properties=["C03"],
          kind_free_text="stateless exploration of thread interleavings of the real code under a controlled scheduler, preemption-bounded"),
-    dict(name="seqx", path="vf/c01.py", serves_properties=["C01"],
+    dict(name="seqx", path="vf/c01.py", serves_properties=["C01", "C06", "C12"],
          kind_free_text="bounded-exhaustive explicit-state search over operation sequences of the real code with reference-model / brute-force oracles"),
 ]
 
